@@ -49,9 +49,16 @@ func main() {
 	scale := flag.Float64("scale", 1.0, "case count multiplier")
 	only := flag.String("suite", "", "run only this suite")
 	budget := flag.Float64("budget", 0, "wall-clock budget in seconds for generated cases (0: none); shared by the suites in proportion to their case counts")
+	keyprobe := flag.Int("keyprobe", 0, "child mode: print this many freshly generated Redis key names and exit")
+	dump := flag.String("dump", "", "write (case, model answer) pairs to this file for the replay inside Coq")
+	dumpPer := flag.Int("dump-per-suite", 4, "number of pairs dumped per suite")
 	flag.Parse()
 	start := time.Now()
 
+	if *keyprobe > 0 {
+		keyProbeChild(*keyprobe)
+		return
+	}
 	if *replay != "" {
 		os.Exit(doReplay(*replay, *model))
 	}
@@ -66,6 +73,12 @@ func main() {
 		os.Exit(2)
 	}
 	defer md.Close()
+	if *dump != "" {
+		if f, err := os.Create(*dump); err == nil {
+			md.Dump, md.DumpPer, md.DumpMax = f, *dumpPer, 60000
+			defer f.Close()
+		}
+	}
 	if *out != "" {
 		crashFile = *out + ".running"
 		caseLimit = 4 * time.Minute
@@ -91,6 +104,7 @@ func main() {
 			continue
 		}
 		suiteStart := time.Now()
+		md.NextSuite()
 		g := &Gen{R: rand.New(rand.NewSource(*seed*1000003 + int64(si)))}
 		m := su.NewMachine()
 		st := NewStats()
@@ -124,6 +138,23 @@ func main() {
 		for _, f := range ck.Findings {
 			f.Sig = su.Name + ":" + f.Sig
 			o.Findings = append(o.Findings, f)
+		}
+	}
+	if *prop == "C19" || *prop == "C09" {
+		rounds := 2
+		if *tier == "thorough" {
+			rounds = 10
+		}
+		desc, compared := crossProcessKeys(rounds, 4)
+		st := NewStats()
+		st.Cases = rounds
+		st.Nontrivial, st.Distinct = rounds, rounds
+		st.Samples = []string{fmt.Sprintf("%d rounds of two processes started in the same wall-clock second, %d generated keys compared", rounds, compared)}
+		o.Suites["cross-process-keys"] = st
+		o.Rules["cross-process-keys"] = "the harness re-executes itself as two simultaneous OS processes that print the first keys the library generates; any common key is a violation"
+		if desc != "" {
+			o.Findings = append(o.Findings, Finding{Kind: "monitor", Sig: "cross-process-keys:two-processes-draw-the-same-keys", Desc: desc,
+				Case: "()", ImplOps: "(harness -keyprobe 4, twice, simultaneously)"})
 		}
 	}
 	for k, v := range knownSigs {
